@@ -225,6 +225,25 @@ CLAIMED["C03"] = dict(
               "implementation oracle on real peer connections",
 )
 
+CLAIMED["C17"] = dict(
+    text="Coq theorems: the serial comparisons uint16/uint32 gt/gte/add - REGENERATED from utils.py on every run - "
+         "are irreflexive, antisymmetric, total away from the antipode, consistent with modular addition and "
+         "translation invariant for ALL values (by lia, not enumeration); shift invariance for every delta: the "
+         "SCTP receiver (all DATA / FORWARD-TSN event lists: same deliveries at the same steps, SACKs differ only "
+         "by the shift, gap blocks identical), the jitter buffer (sequence numbers mod 2^16 and timestamps mod "
+         "2^32) and receiver statistics / reports. PARTIAL: SCTP sender, NACK generator and RTP retransmission "
+         "history are covered only by the metamorphic re-run of the implementation with origins shifted across "
+         "the wrap.",
+    design_ref="5 / C17",
+    note="Gen/Utils.v is validated by value inside Coq (vm_compute) against the Python functions on boundary-biased "
+         "pairs each run. Shift theorems are about Model/SctpRecv.v, Model/Jitter.v, Model/Stats.v, each tied to the "
+         "code by its correspondence; this check additionally runs the receiver correspondence at wrap origins and "
+         "metamorphic pairs on two real SCTP endpoints, the receive path, JitterBuffer, NackGenerator and "
+         "StreamStatistics.",
+    technique="Coq proof (lia on generated code, simulation relations for origin shifts) + regeneration + "
+              "metamorphic implementation oracle",
+)
+
 NOT_YET = "check not built yet in this development snapshot (planned, see DESIGN.md section 10)"
 
 
